@@ -22,6 +22,15 @@ A small render model for C27: `with` blocks (`liquid/extra/tags/_with.py`), `mac
   part of the *state* here: `with` and `for` push explicitly and pop on **every** exit (the
   `try … finally: self.scope.pop()` of `RenderContext.extend`), and `with_scoped_on_every_exit` proves the
   stack is balanced whatever the signal.
+* `{% include 'p' %}` renders the partial **in the same context**: `context.extend({})` in the tag and once
+  more in `render_with_context(partial=True)` (two pushes, each with its depth check, both popped on every
+  exit); locals, macros (`tag_namespace["macros"]`) are shared in both directions; interrupts pass through to
+  an enclosing loop of the parent.  `{% render 'p', k: v %}` renders the partial in `context.copy(args)`:
+  fresh locals, **fresh macros**, arguments in front of the caller's globals; the caller's state is
+  untouched; an interrupt that reaches the partial's top level is a `LiquidSyntaxError`
+  (`block_scope=True`).  Both are modelled for strict mode (in lax mode the partial's own top-level loop goes
+  on after an error, which is not modelled; generators use them in strict mode only).  The harness inlines
+  the partial's nodes.
 * `for v in (1..n)`: `context.loop(namespace)` = `extend` (depth check, push `{forloop, v: None}`), then for
   each item `namespace[v] = item`, render the block, `ContinueLoop` → next item, `BreakLoop` → leave.
 * `MacroNode` stores `(params, block)` under its name in `tag_namespace["macros"]`.
@@ -64,6 +73,8 @@ inductive Node where
   | brk                                                -- `{% break %}`
   | cont                                               -- `{% continue %}`
   | fail                                               -- `{{ 1 | divided_by: 0 }}`: raises a LiquidError
+  | included (body : List Node)     -- `{% include 'p' %}`, `body` = the nodes of template `p` (strict mode)
+  | isolated (args : List (Name × Expr)) (body : List Node)   -- `{% render 'p', k: v, … %}` (strict mode)
 
 structure Macro where
   params : List (Name × Option Expr)     -- `macro.args`, already a dict
@@ -186,6 +197,21 @@ def render (limit depth base : Nat) (globals : List NS) (st : State) : Node → 
     else
       let r := renderLoop limit depth base globals (st.push [(v, .val .undef)]) v 1 n body
       (r.1.pop, r.2.1, r.2.2)
+  | .included body =>
+    if base + st.pushed.length > limit then (st, "", .error .contextDepth)                -- extend in the tag
+    else if base + (st.pushed.length + 1) > limit then (st, "", .error .contextDepth)     -- extend in render_with_context
+    else
+      let r := renderList limit depth base globals ((st.push []).push []) body
+      (r.1.pop.pop, r.2.1, r.2.2)
+  | .isolated args body =>
+    let ns := evalArgs st.pushed st.locals globals args
+    if depth > limit then (st, "", .error .contextDepth)
+    else
+      let r := renderList limit (depth + 1) 5 (ns :: globals) { pushed := [], locals := [], macros := [] } body
+      (st, r.2.1, match r.2.2 with
+        | .brk => .error .strayInterrupt
+        | .cont => .error .strayInterrupt
+        | s => s)
   | .macroDef name params body =>
     ({ st with macros := dictSet st.macros name { params := parseParams params, body := body } }, "", .normal)
   | .call name pos kw =>
